@@ -180,19 +180,22 @@ def generate(rng, tier, i):
                 continue
             peer, sa = m['ps'], local[m['ca']]
             pgn = 0xD000
-            kind = rng.choice(['abort', 'abort', 'cts', 'hold', 'eoma', 'cts_far'])
+            kind = rng.choice(['abort', 'abort', 'cts', 'hold', 'eoma', 'cts_far', 'cts_end', 'rts', 'rts', 'bam'])
             if not fd:
                 data = {'abort': rc.tp_abort(rng.choice([1, 2, 3]), pgn), 'cts': rc.tp_cts(rng.choice([1, 2, 255]), rng.choice([1, 2, 3]), pgn),
                         'hold': rc.tp_cts(0, 255, pgn), 'eoma': rc.tp_eoma(m['len'], rc.npackets21(m['len']), pgn),
-                        'cts_far': rc.tp_cts(5, 255, pgn)}[kind]
+                        'cts_far': rc.tp_cts(5, 255, pgn), 'cts_end': rc.tp_cts(1, rc.npackets21(m['len']) + 1, pgn),
+                        # the peer opens a session of its own at that very moment and then stays silent
+                        'rts': rc.tp_rts(30, 5, 255, 0xD500), 'bam': rc.tp_bam(30, 5, 0xFEDA)}[kind]
                 pf = rc.PF_TP_CM
             else:
                 sess = rng.choice([0, 0, 1])
                 data = {'abort': rc.fd_abort(sess, rng.choice([1, 2, 3]), pgn), 'cts': rc.fd_cts(sess, rng.choice([1, 2, 3]), rng.choice([1, 2, 255]), pgn),
                         'hold': rc.fd_cts(sess, 1, 0, pgn), 'eoma': rc.fd_eoma(sess, m['len'], rc.nsegments22(m['len']), pgn),
-                        'cts_far': rc.fd_cts(sess, 0x5C4000, 5, pgn)}[kind]
+                        'cts_far': rc.fd_cts(sess, 0x5C4000, 5, pgn), 'cts_end': rc.fd_cts(sess, rc.nsegments22(m['len']) + 1, 1, pgn),
+                        'rts': rc.fd_rts(rng.choice([0, 3, 9]), 150, 3, 255, 0xD500), 'bam': rc.fd_bam(rng.choice([0, 2, 7]), 150, 3, 0xFEDA)}[kind]
                 pf = rc.PF_FD_TP_CM
-            react.append({'on_tx': rng.randrange(0, 8), 'id': rc.make_id(7, 0, pf, sa, peer), 'd': _hex(data)})
+            react.append({'on_tx': rng.randrange(0, 8), 'id': rc.make_id(7, 0, pf, 255 if kind == 'bam' else sa, peer), 'd': _hex(data)})
     scn['react'] = react
     return scn
 
